@@ -55,7 +55,9 @@ def gen_whole(rng, max_funcs=3):
                 funcs.append(core3gen.gen_func(rng, sig=sg, genv=genv))
         nd, dd = metagen.gen_sec(rng, max_defs=4) if rng.random() < 0.7 else ("-", "-")
         # keywords in the function headers (declarations and definitions alike)
-        funcs = [core3gen.with_lead(rng, f) for f in funcs]
+        # (an address space only on functions nothing refers to: a reference spells the pointer type of the function, address space included)
+        alltext = " ".join(x for f in funcs for x in f)
+        funcs = [core3gen.with_tail(rng, core3gen.with_lead(rng, f), addrspace_ok=("@" + f[1].split("~")[0]) not in alltext) for f in funcs]
         # metadata attachments on instructions, referring to definitions of the metadata section (which is printed AFTER the functions)
         if dd != "-" and rng.random() < 0.7:
             ids = [int(e.split(":")[0]) for e in dd.split("|")]
@@ -176,6 +178,29 @@ def mutants(rng, text):
         m = re.match(rb"(define|declare) ", lines[k])
         for kw in rng.sample([b"internal", b"hidden", b"dso_local", b"fastcc", b"dllimport", b"extern_weak", b"amdgpu_kernel", b"linkonce_odr"], 2):
             out.append(("header-keyword-added", with_line(k, lines[k][:m.end()] + kw + b" " + lines[k][m.end():])))
+    # the clauses behind the parameter list: `unnamed_addr` and `addrspace(N)` come first, in this order and once; the others in any order, a repeated `section` /
+    # `partition` / `align` / `gc` overwrites the earlier one, attribute keywords accumulate; what is printed is the canonical order
+    tails = [(k, m) for k in fn + dc for m in [re.search(rb"\) ((?:(?:[a-z_]+|addrspace\(\d+\)|(?:section|partition|gc) \"[^\"]*\"|align \d+) )*)\{$", lines[k] + (b" {" if k in dc else b""))] if m]
+    for k, m in rng.sample(tails, min(2, len(tails))):
+        line = lines[k] + (b" {" if k in dc else b"")
+        cl = re.findall(rb"(?:section|partition|gc) \"[^\"]*\"|align \d+|addrspace\(\d+\)|[a-z_]+", m.group(1))
+        head = line[:m.start(1)]
+        def put(kind, parts):
+            t = head + b"".join(c + b" " for c in parts) + b"{"
+            out.append((kind, with_line(k, t[:-2] if k in dc else t)))
+        extra = [b"nounwind", b"cold", b'section "other"', b"align 16", b'gc "z"', b'partition "q"', b"unnamed_addr", b"local_unnamed_addr", b"addrspace(2)", b"align 0", b'section ""', b"addrspace(0)",
+                 b"align 18446744073709551616", b"nounwindx", b"align", b"section 7"]
+        # (an unknown alphabetic WORD — `nosuchattr` — is no test: the lexer of llir/ll drops what it cannot tokenise and the parser goes on, anywhere in a module;
+        # `ret void blah` is accepted. The readers of the model reject such text; see DESIGN §G)
+        put("clause-appended", cl + [rng.choice(extra)])
+        put("clause-prepended", [rng.choice(extra)] + cl)
+        if cl:
+            i = rng.randrange(len(cl))
+            put("clause-doubled", cl[:i + 1] + [cl[i]] + cl[i + 1:])
+            put("clause-dropped", cl[:i] + cl[i + 1:])
+            sh = list(cl); rng.shuffle(sh)
+            put("clauses-shuffled", sh)
+            put("clauses-reversed", cl[::-1])
     # metadata attachments of instructions: the IDs they name are definitions of the metadata section
     atts = [(k, m) for k in body for m in re.finditer(rb', !(?:[-a-zA-Z$._0-9\\]+) !(\d+)', lines[k]) if lines[k][:m.start()].count(b'"') % 2 == 0]
     if atts:
